@@ -107,7 +107,7 @@ pub fn entries() -> Vec<Entry> {
 	}
 	{
 		// a user type that merely *claims* (through a safe std trait) to contain a key must not be usable as one
-		let forged = "struct Forged;\nimpl std::borrow::Borrow<ThreadKey> for Forged { fn borrow(&self) -> &ThreadKey { unreachable!() } }\nimpl std::borrow::BorrowMut<ThreadKey> for Forged { fn borrow_mut(&mut self) -> &mut ThreadKey { unreachable!() } }\nimpl AsMut<ThreadKey> for Forged { fn as_mut(&mut self) -> &mut ThreadKey { unreachable!() } }\nimpl AsRef<ThreadKey> for Forged { fn as_ref(&self) -> &ThreadKey { unreachable!() } }\nimpl std::ops::Deref for Forged { type Target = ThreadKey; fn deref(&self) -> &ThreadKey { unreachable!() } }\nimpl std::ops::DerefMut for Forged { fn deref_mut(&mut self) -> &mut ThreadKey { unreachable!() } }\nimpl From<Forged> for Option<ThreadKey> { fn from(_: Forged) -> Self { None } }\n";
+		let forged = FORGED_ITEMS;
 		for (recv, bad, good) in [
 			("Mutex::scoped_lock(Forged)", "\tlet m = Mutex::new(1); m.scoped_lock(Forged, |d| *d += 1);", "\tlet m = Mutex::new(1); m.scoped_lock(ThreadKey::get().unwrap(), |d| *d += 1);"),
 			("Mutex::scoped_lock(&mut Forged)", "\tlet m = Mutex::new(1); let mut f = Forged; m.scoped_lock(&mut f, |d| *d += 1);", "\tlet m = Mutex::new(1); let mut f = ThreadKey::get().unwrap(); m.scoped_lock(&mut f, |d| *d += 1);"),
@@ -194,6 +194,24 @@ pub fn entries() -> Vec<Entry> {
 			"",
 			&["E0382", "E0505", "E0507", "E0525"],
 		));
+		// a client type that only claims, through safe std conversion traits, to contain a key: every acquiring API
+		{
+			let mut add = |what: String, bad: String, good: String| {
+				let mut en = e("C14", "forge-key-through-safe-conversion-trait", &what, &setup, &bad, &good, "", &["E0277", "E0308"]);
+				en.items = FORGED_ITEMS.to_string();
+				v.push(en);
+			};
+			add(format!("{}::lock(Forged)", r.name), format!("\tlet g = {};", lk("Forged")), format!("\tlet g = {};", lk("key")));
+			add(format!("{}::try_lock(Forged)", r.name), format!("\tlet g = {};", tlk("Forged")), format!("\tlet g = {};", tlk("key")));
+			add(format!("{}::{}(Forged)", r.name, r.scoped), format!("\tc.{}(Forged, |d| {{ {}; }});", r.scoped, r.touch), format!("\tc.{}(&mut key, |d| {{ {}; }});", r.scoped, r.touch));
+			add(format!("{}::{}(Forged)", r.name, r.scoped_try), format!("\tlet _ = c.{}(Forged, |d| {{ {}; }});", r.scoped_try, r.touch), format!("\tlet _ = c.{}(&mut key, |d| {{ {}; }});", r.scoped_try, r.touch));
+			if let Some((read, try_read, sread, stread)) = r.read {
+				add(format!("{}::read(Forged)", r.name), format!("\tlet g = {};", read.replace("K", "Forged")), format!("\tlet g = {};", read.replace("K", "key")));
+				add(format!("{}::try_read(Forged)", r.name), format!("\tlet g = {};", try_read.replace("K", "Forged")), format!("\tlet g = {};", try_read.replace("K", "key")));
+				add(format!("{}::{}(Forged)", r.name, sread), format!("\tc.{}(Forged, |d| {{ use_ref(&d); }});", sread), format!("\tc.{}(&mut key, |d| {{ use_ref(&d); }});", sread));
+				add(format!("{}::{}(Forged)", r.name, stread), format!("\tlet _ = c.{}(Forged, |d| {{ use_ref(&d); }});", stread), format!("\tlet _ = c.{}(&mut key, |d| {{ use_ref(&d); }});", stread));
+			}
+		}
 		// nothing but the thread's key (owned or exclusively borrowed) is accepted as a key, by any acquiring API
 		for (fake, label) in [("()", "unit"), ("&key", "shared-borrow")] {
 			v.push(e("C14", "non-key-as-key", &format!("{}::lock({})", r.name, label), &setup, &format!("	let g = {};", lk(fake)), &format!("	let g = {};", lk("key")), "", &["E0277", "E0308"]));
@@ -247,6 +265,21 @@ pub fn entries() -> Vec<Entry> {
 		v.push(e("C15", "ref-escapes-guard", &format!("{} guard", r.name), &format!("{}\tlet r: &i32;\n\t{{\n\t\tlet g = {};\n", setupo, lk("key")), &format!("\t\tr = &{};", r.place), &format!("\t\tr = &0; use_ref(&{});", r.place), "\t}\n\tuse_ref(r);\n", &["E0597", "E0505", "E0716"]));
 		v.push(e("C15", "ref-escapes-scoped-closure", &format!("{}::{}", r.name, r.scoped), &setup, &format!("\tlet r = c.{}(&mut key, |d| d);", r.scoped), &format!("\tlet r = c.{}(&mut key, |d| {{ {}; }});", r.scoped, r.touch), "\tuse_ref(&r);\n", &["E0521", "E0597", "E0515", "E0716", "E0505", "E0499", "E0502", "E0506", "E0310", "E0495", "E0308", "E0700", "E0373", "E0623", "E0312", "E0759", "E0282", "E????"]));
 		v.push(e("C15", "ref-escapes-scoped-closure", &format!("{}::{}", r.name, r.scoped_try), &setup, &format!("\tlet r = c.{}(&mut key, |d| d);", r.scoped_try), &format!("\tlet r = c.{}(&mut key, |d| {{ {}; }});", r.scoped_try, r.touch), "\tuse_ref(&r);\n", &["E0521", "E0597", "E0515", "E0716", "E0505", "E0499", "E0502", "E0506", "E0310", "E0495", "E0308", "E0700", "E0373", "E0623", "E0312", "E0759", "E0282", "E????"]));
+	}
+	// constructors without a duplicate check accept owned locks only, through every route (Default, From, FromIterator, Extend)
+	for (what, bad, good) in [
+		("Owned::default over Vec<&Mutex>", "\tlet c: OwnedLockCollection<Vec<&Mutex<i32>>> = Default::default();", "\tlet c: OwnedLockCollection<Vec<Mutex<i32>>> = Default::default();"),
+		("Boxed::default over Vec<&Mutex>", "\tlet c: LockCollection<Vec<&Mutex<i32>>> = Default::default();", "\tlet c: LockCollection<Vec<Mutex<i32>>> = Default::default();"),
+		("Retrying::default over Vec<&Mutex>", "\tlet c: RetryingLockCollection<Vec<&Mutex<i32>>> = Default::default();", "\tlet c: RetryingLockCollection<Vec<Mutex<i32>>> = Default::default();"),
+		("Owned::from(vec![&m, &m])", "\tlet m = Mutex::new(1); let c = OwnedLockCollection::from(vec![&m, &m]);", "\tlet m = Mutex::new(1); let c = OwnedLockCollection::from(vec![Mutex::new(1)]); use_ref(&m);"),
+		("Boxed::from(vec![&m, &m])", "\tlet m = Mutex::new(1); let c = LockCollection::from(vec![&m, &m]);", "\tlet m = Mutex::new(1); let c = LockCollection::from(vec![Mutex::new(1)]); use_ref(&m);"),
+		("Retrying::from(vec![&m, &m])", "\tlet m = Mutex::new(1); let c = RetryingLockCollection::from(vec![&m, &m]);", "\tlet m = Mutex::new(1); let c = RetryingLockCollection::from(vec![Mutex::new(1)]); use_ref(&m);"),
+		("Owned: FromIterator<&Mutex>", "\tlet m = Mutex::new(1); let c: OwnedLockCollection<Vec<&Mutex<i32>>> = [&m, &m].into_iter().collect();", "\tlet m = Mutex::new(1); let c: OwnedLockCollection<Vec<Mutex<i32>>> = [Mutex::new(1)].into_iter().collect(); use_ref(&m);"),
+		("Boxed: FromIterator<&Mutex>", "\tlet m = Mutex::new(1); let c: LockCollection<Vec<&Mutex<i32>>> = [&m, &m].into_iter().collect();", "\tlet m = Mutex::new(1); let c: LockCollection<Vec<Mutex<i32>>> = [Mutex::new(1)].into_iter().collect(); use_ref(&m);"),
+		("Retrying: FromIterator<&Mutex>", "\tlet m = Mutex::new(1); let c: RetryingLockCollection<Vec<&Mutex<i32>>> = [&m, &m].into_iter().collect();", "\tlet m = Mutex::new(1); let c: RetryingLockCollection<Vec<Mutex<i32>>> = [Mutex::new(1)].into_iter().collect(); use_ref(&m);"),
+		("Ref::from(&vec![&m, &m])", "\tlet m = Mutex::new(1); let d = vec![&m, &m]; let c = RefLockCollection::from(&d);", "\tlet m = Mutex::new(1); let d = vec![Mutex::new(1)]; let c = RefLockCollection::from(&d); use_ref(&m);"),
+	] {
+		v.push(e("C15", "new-with-reference-input", what, "", bad, good, "", &["E0277", "E0599", "E0308"]));
 	}
 	// guard outliving its lock
 	v.push(e("C15", "guard-outlives-lock", "Mutex", &format!("{}\tlet g;\n\t{{\n\t\tlet m = Mutex::new(1);\n", keyo), "\t\tg = m.lock(key);", "\t\tg = 0; drop(m.lock(key));", "\t}\n\tdrop(g);\n", &["E0597"]));
@@ -513,6 +546,8 @@ pub fn entries() -> Vec<Entry> {
 fn out_root() -> String {
 	std::env::var("HLVERIF_OUT_DIR").unwrap_or_else(|_| "/verif/c14c15/out".into())
 }
+
+const FORGED_ITEMS: &str = "struct Forged;\nimpl std::borrow::Borrow<ThreadKey> for Forged { fn borrow(&self) -> &ThreadKey { unreachable!() } }\nimpl std::borrow::BorrowMut<ThreadKey> for Forged { fn borrow_mut(&mut self) -> &mut ThreadKey { unreachable!() } }\nimpl AsMut<ThreadKey> for Forged { fn as_mut(&mut self) -> &mut ThreadKey { unreachable!() } }\nimpl AsRef<ThreadKey> for Forged { fn as_ref(&self) -> &ThreadKey { unreachable!() } }\nimpl std::ops::Deref for Forged { type Target = ThreadKey; fn deref(&self) -> &ThreadKey { unreachable!() } }\nimpl std::ops::DerefMut for Forged { fn deref_mut(&mut self) -> &mut ThreadKey { unreachable!() } }\nimpl From<Forged> for Option<ThreadKey> { fn from(_: Forged) -> Self { None } }\n";
 
 fn find_rlib() -> Result<(String, String), String> {
 	// ask cargo for the artifact built from /repo's current working tree (harness already built by run.sh)
